@@ -14,6 +14,7 @@ Line protocol for C11 (molar / mass / volumetric views and units of measure).
                                              → ok <0|1> <phase(s)>
   link <s> <o> <flow> <phase> <TP> | unlink <s>   → ok
   view <s> <c> | proxy <s> | flowproxy <s>       → ok <sid of ms[c] / the proxy>
+  copy <s> <thermo> <R>                          → ok <sid of the copy>   (Stream.copy(thermo=…))
   rdmol <s> | rdmass <s> | rdvol <s> <V>     → m <-|v<id>> <mat of floats>
   rdF <s> <dim> <V>                          → x - <float>
   wrF <s> <dim> <x> <V>                      → ok
@@ -95,6 +96,7 @@ def parseOp? (t : List String) : Option Op :=
   | ["view", s, c] => do pure (.view (← s.toNat?) (← parseChar? c))
   | ["proxy", s] => do pure (.proxy (← s.toNat?))
   | ["flowproxy", s] => do pure (.flowProxy (← s.toNat?))
+  | ["copy", s, k, r] => do pure (.copy (← s.toNat?) (← k.toNat?) (← parseMat? r))
   | ["rdmol", s] => do pure (.readMol (← s.toNat?))
   | ["rdmass", s] => do pure (.readMass (← s.toNat?))
   | ["rdvol", s, v] => do pure (.readVol (← s.toNat?) (← parseMat? v))
@@ -178,7 +180,7 @@ def monitorV (st : St) (sid : Nat) (V : Mat) : Except String (List ((Nat × Char
   (phases.zip V).foldlM (fun tbl (ph, row) =>
     let key := (s.th, ph, T, P)
     match tbl.find? (fun e => e.1 == key) with
-    | some e => if rowsClose e.2 row then .ok tbl else .error s!"{ph}"
+    | some e => if e.2 == row then .ok tbl else .error s!"{ph}"
     | none => .ok ((key, row) :: tbl)) st.vseen
 
 def step (st : St) (line : String) : St × String :=
